@@ -14,7 +14,7 @@ def runs(tier, seed, replay):
 
 CONFIG = {
     "runs": runs,
-    "status": "validity/amount/unsat/function-of-choices FULL, uniformity PARTIAL (amount = 1, ideal primitives). "
+    "status": "validity/amount/unsat/function-of-choices FULL; uniformity FULL at the level of IDEAL random primitives (every amount k >= 1, every output position j < k: marginal law uniform on ModelsA), the real generator/f64/rand_distr stay outside the model. "
               "Proved in Coq (Props/C07.v, all closed under the global context) on the choice-stream model of sample_node: "
               "C07_sample_node_valid - for EVERY choice stream satisfying choices_ok (each consumed Split has one non-negative entry per child, "
               "sums to the requested amount, is 0 on zero-temp children; each consumed Perm is a permutation; the stream has the shape the traversal asks for) "
@@ -30,7 +30,14 @@ CONFIG = {
               "C07_uniform_ideal_single (+ _node, C07_ideal_streams_run) - for amount = 1 with ideal primitives (Or: unit split e_k with probability temp_k/temp_node, shuffles of <= 1 element) "
               "the law of the sorted sample lists every element of ModelsA exactly once with probability 1/MCA (mass of every other configuration 0), under or_no_true (no Or node has a true child), "
               "and every stream of that law runs on the model's sample_node, respects choices_ok and yields the listed outcome. "
-              "NOT proved: uniformity for amount k > 1 (statement and missing lemmas in a comment in Props/C07.v: multinomial/uniform-permutation distribution monad and the block-pattern counting lemma). "
+              "C07_uniform_ideal_marginal (final form; + _node, _root, _multinomial, C07_ideal_streams_run_general, C07_ideal_law_runs_root, C07_multinomial_is_ideal, C07_uniform_shuffle; Proofs/C07General*.v) - "
+              "GENERAL amount: dist X = list (X * Q) is an executable finite probability monad; jointk is the law of sample_node for amount a when (definitions, not axioms) the split vector of an Or node i asked for a samples follows ANY law SL i a with "
+              "split_ideal (weights >= 0 of total 1, every vector satisfies split_ok, E[entry of live child c] = a * temp_c / temp_i - only the expectation is used, so Binomial on two live children and a independent WeightedAliasIndex draws are covered; "
+              "the law of a independent categorical draws is PROVED to be an instance on every circuit), every shuffle of m elements draws uniformly from all m! permutations, and all draws are independent. "
+              "Hypotheses of the final form: WFQ, 0 < n, in_range, Clean, or_no_true, 0 < MCA, splits_ideal (none for the multinomial form). Conclusion for every k >= 1: the stream law has total mass 1 and weights >= 0, EVERY stream of it satisfies urs_choices_okb, "
+              "is consumed entirely by uniform_random_sampling (ok flag true) which returns k configurations, and for EVERY position j < k the push-forward to the j-th returned configuration gives mass exactly 1/MCA to every member of ModelsA and 0 to every other configuration. "
+              "Nothing refuted: zero-temp children, the padding with empty lists (unused under the contract) and true children of And nodes do not disturb the law. Not claimed and not part of C07: independence between positions. "
+              "Non-vacuity by vm_compute on (1&2)|(-1&(2|-2)), A = [], MCA = 3, amounts 2 and 3 (80 / 11304 weighted streams, multinomial and explicit Binomial split laws): every position has mass 1/3 on each model. "
               "Outside the model, only exercised: Pcg32, the f64 weights, rand_distr Binomial/WeightedAliasIndex (chi-square with false-alarm probability < 1e-12, a statistical test, not a proof). "
               "Found while proving (not covered by the theorems, no contract-respecting stream exists): an Or node whose non-zero-temp children are all hidden true nodes "
               "(check_wf-accepted c2d input 'nnf 4 3 1 / L 1 / A 0 / O 0 1 1 / A 2 0 2', MCA = 1) makes the Rust panic in WeightedAliasIndex::new(empty).unwrap(); the model has no Panic outcome there and the generators do not produce it. "
